@@ -23,6 +23,7 @@ import dispatch_util as du
 
 K = 256
 GCAP = 64
+IDMOD = 997  # the Coq side sees ticket ids modulo a prime (unary nat); the Go side and the oracle use unique ids
 
 
 # ------------------------------------------------------------------ case generation
@@ -242,9 +243,9 @@ def coq_term_to_py(txt):
 def coq_op(op):
     o = op["op"]
     if o == "push":
-        return "QPush %d" % op["id"]
+        return "QPush %d" % (op["id"] % IDMOD)
     if o == "pushLocal":
-        return "QPushLocal %d %d" % (op["w"], op["id"])
+        return "QPushLocal %d %d" % (op["w"], op["id"] % IDMOD)
     if o == "popLocal":
         return "QPopLocal %d" % op["w"]
     if o == "popGlobal":
@@ -285,15 +286,16 @@ Eval vm_compute in allruns.
         for k, (st, d) in enumerate(zip(o["steps"], dig)):
             steps += 1
             mout, (mlocals, (gh, gs, gc)) = d
-            got = (st["out"], [(r["head"], r["size"]) for r in st["locals"]], (st["global"]["head"], st["global"]["size"], st["global"]["cap"]))
+            got = (st["out"] % IDMOD if st["out"] >= 0 else st["out"], [(r["head"], r["size"]) for r in st["locals"]], (st["global"]["head"], st["global"]["size"], st["global"]["cap"]))
             want = (mout, [tuple(x) for x in mlocals], (gh, gs, gc))
             if got != want:
                 mism.append({"case": c["name"], "step": k, "op": c["ops"][k], "go": str(got), "model": str(want)})
                 break
         else:
             flocals, fglobal = fin
-            gotf = ([(r["head"], r["tail"], r["size"], r["cap"], r.get("items", [])) for r in o["final"]["locals"]],
-                    (o["final"]["global"]["head"], o["final"]["global"]["tail"], o["final"]["global"]["size"], o["final"]["global"]["cap"], o["final"]["global"].get("items", [])))
+            md = lambda l: [x % IDMOD for x in l]
+            gotf = ([(r["head"], r["tail"], r["size"], r["cap"], md(r.get("items", []))) for r in o["final"]["locals"]],
+                    (o["final"]["global"]["head"], o["final"]["global"]["tail"], o["final"]["global"]["size"], o["final"]["global"]["cap"], md(o["final"]["global"].get("items", []))))
             wantf = ([(a, b, s, cp, list(it)) for (a, b, s, cp, it) in flocals], (fglobal[0], fglobal[1], fglobal[2], fglobal[3], list(fglobal[4])))
             if gotf != wantf:
                 mism.append({"case": c["name"], "step": "final", "go": str(gotf)[:500], "model": str(wantf)[:500]})
